@@ -85,7 +85,15 @@ def main():
             try:
                 import conductor.lib as cl
                 res["get_output_path"] = str(cl.get_output_path())
-                res["get_deps_paths"] = [str(p) for p in cl.get_deps_paths()]
+                first = cl.get_deps_paths()
+                res["get_deps_paths"] = [str(p) for p in first]
+                # a caller may do what it likes with the returned list; a later call must still be right
+                first.reverse()
+                if first:
+                    first.pop()
+                first.append("garbage")
+                res["get_deps_paths_again"] = [str(p) for p in cl.get_deps_paths()]
+                res["get_output_path_again"] = str(cl.get_output_path())
                 res["in_output_dir"] = str(cl.in_output_dir("sub/file.txt"))
                 import pathlib
                 res["in_output_dir_path"] = str(cl.in_output_dir(pathlib.Path("q.bin")))
